@@ -12,6 +12,7 @@ import (
 	"pgregory.net/rapid"
 
 	"verifharness/desc"
+	"verifharness/ev"
 	"verifharness/lib"
 )
 
@@ -375,6 +376,20 @@ type structGen struct {
 	extraTags      []string // further tag names under which fields carry (other) rule sets (C08)
 }
 
+// genFlags: what the value generators drew for the current case (read and reset by takeGenFlags).
+var genFlags struct{ bulk, interior bool }
+
+// takeGenFlags reports the classes of the case just generated.
+func takeGenFlags() {
+	if genFlags.bulk {
+		ev.Class("payload-sized slice of scalars (>= 10001 elements)")
+	}
+	if genFlags.interior {
+		ev.Class("interior pointer (a pointer field holding the address of a by-value sibling)")
+	}
+	genFlags.bulk, genFlags.interior = false, false
+}
+
 // addExtraTags gives a scalar / slice field rule sets under the extra tag names.
 func (g *structGen) addExtraTags(f *desc.F, kind string, v desc.V) {
 	for _, et := range g.extraTags {
@@ -441,9 +456,32 @@ func (g *structGen) sliceField(name string) (desc.F, desc.V) {
 	for i := 0; i < n; i++ {
 		v.E = append(v.E, genScalar(g.t, ek, "elem", true))
 	}
+	if n > 0 && rapid.IntRange(0, 39).Draw(g.t, "bulk") == 0 {
+		// a payload: ten thousand and more elements (counters and buffers inside the walker see them all)
+		if rapid.Bool().Draw(g.t, "bulkBytes") {
+			ek = "uint8"
+			v.E = []desc.V{{U: 0xe6}, {U: 0xb5}, {U: 0x8b}}
+		}
+		unit := v.E
+		for total := rapid.SampledFrom([]int{10001, 12000, 16384, 20000}).Draw(g.t, "bulkLen"); len(v.E) < total; {
+			v.E = append(v.E, unit...)
+		}
+		genFlags.bulk = true
+	}
 	f := desc.F{Name: name, T: desc.Slice(desc.Scalar(ek))}
 	if r := g.leafRules("slice", v); r != "" {
 		f.Tags = map[string]string{g.tag: r}
+	}
+	if len(g.containerMarks) > 0 && rapid.IntRange(0, 2).Draw(g.t, "markedScalarSlice") == 0 {
+		// the markers of nested validation on a collection of scalars: its elements are passed over
+		mark := rapid.SampledFrom(g.containerMarks).Draw(g.t, "sliceMark")
+		if mark == "-" || mark == "" {
+			// (the "no marker" choice of the container fields)
+		} else if f.Tags == nil {
+			f.Tags = map[string]string{g.tag: mark}
+		} else if !strings.Contains(f.Tags[g.tag], "required") && !strings.Contains(f.Tags[g.tag], "exist") {
+			f.Tags[g.tag] = mark + "," + f.Tags[g.tag]
+		}
 	}
 	g.addExtraTags(&f, "slice", v)
 	return f, v
@@ -480,6 +518,22 @@ func (g *structGen) genStruct(depth int) (desc.T, desc.V) {
 		}
 		ty.Fields = append(ty.Fields, f)
 		val.E = append(val.E, v)
+	}
+	// a pointer field of the type of a by-value struct field declared before it (it may point at that sibling)
+	for j := range ty.Fields {
+		if ty.Fields[j].T.K == "struct" && !ty.Fields[j].Embedded && rapid.IntRange(0, 3).Draw(g.t, "siblingPtr") == 0 {
+			mark := "required"
+			if len(g.containerMarks) > 0 {
+				mark = rapid.SampledFrom(g.containerMarks).Draw(g.t, "siblingMark")
+			}
+			f := desc.F{Name: "Sib" + strconv.Itoa(j), T: desc.Ptr(ty.Fields[j].T)}
+			if mark != "-" && mark != "" {
+				f.Tags = map[string]string{g.tag: mark}
+			}
+			ty.Fields = append(ty.Fields, f)
+			val.E = append(val.E, desc.V{Interior: j + 1, E: []desc.V{val.E[j]}})
+			break
+		}
 	}
 	if g.withTime && rapid.IntRange(0, 5).Draw(g.t, "timeField") == 0 {
 		ty.Fields = append(ty.Fields, desc.F{Name: "T9", T: desc.Scalar("time"), Tags: map[string]string{g.tag: "required"}})
@@ -657,8 +711,18 @@ func (g *structGen) genValueFor(ty desc.T, depth int) desc.V {
 	switch ty.K {
 	case "struct":
 		v := desc.V{}
-		for _, f := range ty.Fields {
-			v.E = append(v.E, g.genValueFor(f.T, depth+1))
+		for i, f := range ty.Fields {
+			fv := g.genValueFor(f.T, depth+1)
+			if f.T.K == "ptr" && !fv.Nil {
+				for j := 0; j < i; j++ {
+					if reflect.DeepEqual(ty.Fields[j].T, *f.T.Elem) && rapid.Bool().Draw(g.t, "vInterior") {
+						fv.Interior = j + 1 // points at the by-value sibling declared earlier
+						genFlags.interior = true
+						break
+					}
+				}
+			}
+			v.E = append(v.E, fv)
 		}
 		return v
 	case "ptr":
@@ -678,6 +742,14 @@ func (g *structGen) genValueFor(ty desc.T, depth int) desc.V {
 		v := desc.V{Nil: n < 0}
 		for i := 0; i < n; i++ {
 			v.E = append(v.E, g.genValueFor(*ty.Elem, depth+1))
+		}
+		if ty.K == "slice" && n > 0 && ty.Elem.Elem == nil && ty.Elem.K != "struct" && ty.Elem.K != "named" && rapid.IntRange(0, 7).Draw(g.t, "vBulk") == 0 {
+			// a payload: ten thousand and more scalar elements
+			unit := v.E
+			for total := rapid.SampledFrom([]int{10001, 12000, 16384, 20000}).Draw(g.t, "vBulkLen"); len(v.E) < total; {
+				v.E = append(v.E, unit...)
+			}
+			genFlags.bulk = true
 		}
 		return v
 	case "map":
